@@ -4,7 +4,7 @@ import c08
 from bcommon import prepare  # noqa
 from c08 import replay  # noqa
 
-TRUSTED = c08.TRUSTED + ["drops are observed through Drop impls of the payload type; matcher-column strings carry no drop hook, their release is covered by the model only"]
+TRUSTED = c08.TRUSTED + ["histories: drops are observed through Drop impls of the payload type; matcher-column strings carry no drop hook, their release is observed by the leak probe through a counting global allocator (live bytes / allocations of the harness process)"]
 ASSUMPTIONS = c08.ASSUMPTIONS + ["Arc handle bookkeeping of Nucleo/Snapshot/Injector is C20's subject; here the vector is dropped by its single owner after all writers finished"]
 
 
@@ -34,13 +34,16 @@ def run(ctx, broken):
         # never dropped before the vector: a drop event before `drop` must belong to a panicked / over-long extend
         if any(dropped.count(v) > 1 for v in set(dropped)) and "drop" not in line.split(";"):
             res["failures"].append({"class": "double", "what": "double drop -- history: " + line[:300], "case": line})
-    res["failures"] = res["failures"][:200]
-    res["distinct_nontrivial"] = nt
+    pn, pf = bcommon.leak_probe(ctx)
+    res["failures"] = pf[:20] + res["failures"][:200]
+    res["evaluations"] += pn
+    res["distinct_nontrivial"] = nt + pn
     res["rule"] = ("same history generator as C08 with drop-counting payloads (ids logged on Drop): pushes with panicking fills, honest and lying extends (reported length off by -1/+1/+2, "
                    "reported 200-20000 with 0-3 items), writers parked mid-operation, then all writers finish and the vector is dropped by its owner; oracle: every created value "
                    "id occurs exactly once in the drop log; compared with the extracted model (whose Drop walk `break`s or `continue`s at a null bucket as the translated source says). "
-                   "Non-trivial = history that ends with the vector dropped.")
+                   "Non-trivial = history that ends with the vector dropped." + bcommon.LEAK_RULE + " %d probe cases." % pn)
     res["samples"] = [{"history": r[0][:300], "implementation": ";".join(r[2])[-200:]} for r in recs[:3]]
+    res["extra"] = {"leak_probe_cases": pn}
     return res
 
 
